@@ -41,10 +41,12 @@ template<class A> static void compose_events(Guarded&ar,const QList&l,int sp,int
 
 template<class A> static void dissect_event(Guarded&ar,const Text&in,int ps,int conv,int ep){
   typedef typename A::Ch Ch; Ch*p=ar.put<Ch>(in,false); typename A::QL*ql=nullptr; int count=-7; RecMM mm; int rc=-9;
+  static unsigned long ncalls=0; bool nocount= (ncalls++)%5==2;   // the item count is optional ("can be NULL"): the list must not depend on it
+  int*pc= nocount? nullptr : &count;
   g.set_case(J().str("driver","query/dissect").raw("in",jtext(in)).num("ps",ps).num("conv",conv).num("w",A::W).done());
-  int fault=guarded_call([&]{ rc= ep==2? A::DissectQueryMallocExMm(&ql,&count,p,p+in.size(),ps,(UriBreakConversion)conv,&mm.mm) : (ep==0&&ps==1&&conv==(int)URI_BR_DONT_TOUCH? A::DissectQueryMalloc(&ql,&count,p,p+in.size()) : A::DissectQueryMallocEx(&ql,&count,p,p+in.size(),ps,(UriBreakConversion)conv)); });
+  int fault=guarded_call([&]{ rc= ep==2? A::DissectQueryMallocExMm(&ql,pc,p,p+in.size(),ps,(UriBreakConversion)conv,&mm.mm) : (ep==0&&ps==1&&conv==(int)URI_BR_DONT_TOUCH? A::DissectQueryMalloc(&ql,pc,p,p+in.size()) : A::DissectQueryMallocEx(&ql,pc,p,p+in.size(),ps,(UriBreakConversion)conv)); });
   std::string jl="[]"; if(!fault&&rc==URI_SUCCESS){ jl=jq(read_list<A>(ql)); if(ep==2) A::FreeQueryListMm(ql,&mm.mm); else A::FreeQueryList(ql); }
-  g.event(J().str("e","Dissect").num("w",A::W).raw("in",jtext(in)).boo("ps",ps).num("conv",conv).num("rc",rc).num("count",count).raw("list",jl).raw("mem",mm.jlog()).num("leak",(long long)mm.outstanding()).num("fault",fault).str("s",show(in)).done()); mm.release_all(); }
+  g.event(J().str("e","Dissect").num("w",A::W).raw("in",jtext(in)).boo("ps",ps).num("conv",conv).num("rc",rc).num("count",count).boo("nocount",nocount).raw("list",jl).raw("mem",mm.jlog()).num("leak",(long long)mm.outstanding()).num("fault",fault).str("s",show(in)).done()); mm.release_all(); }
 
 // the allocating calls with the k-th request of the supplied manager refused (once, or from then on): whatever is REPORTED as a success must
 // be the fault-free result (C17); that a refused request ends in the out-of-memory code is C14's clause and is checked here as well
